@@ -1,5 +1,6 @@
 //! Verification harness for gfx-rs/rspirv: calls the real code in-process.
 pub mod glue_decode;
 pub mod glue_enums;
+pub mod glue_operand;
 pub mod util;
 pub mod chan;
